@@ -474,7 +474,7 @@ sys_prop(
      "C13_old_value_is_replaced_under_the_write_lock", "C13_lookup_is_by_type"],
     ["Entry", "CacheMap", "LocalMap", "Private"],
     ["value-not-dropped-exactly-once", "handle-changed", "torn-read", "guard-not-pinned", "loser-not-dropped",
-     "racers-disagree"], mode="all",
+     "racers-disagree", "presence-flipped", "handle-moved"], mode="all",
     extra_engines=[("rwdiff", []), ("racediff", [])])
 
 sys_prop(
